@@ -197,7 +197,22 @@ def build_as(case, surfaces=None, setup=True, mode="auto", npts=None, complex_=F
     ground = any(s.get("groundplane", False) for s in surfaces)
     any_pm = any("n_point_masses" in s for s in surfaces)
     prob = om.Problem(reports=False)
-    ivc = om.IndepVarComp()
+    ivc_real = om.IndepVarComp()
+    uov = case.get("units", {})  # the same SI value supplied through a source declared in another unit
+
+    class _IVC:
+        """adds outputs to the IndepVarComp, converting value and unit when the case asks for another unit"""
+
+        def add_output(self, name, val=None, units=None):
+            base = name.rsplit("_", 1)[0] if name.rsplit("_", 1)[-1].isdigit() else name
+            if base in uov and units is not None:
+                from openmdao.utils.units import convert_units
+
+                val = convert_units(np.array(val, float), units, uov[base])
+                units = uov[base]
+            ivc_real.add_output(name, val=val, units=units)
+
+    ivc = _IVC()
     shared = ["CT", "R", "W0", "speed_of_sound", "empty_cg", "fuel_mass", "beta"]
     perpt = ["v", "alpha", "Mach_number", "re", "rho", "load_factor"]
     f0 = dict(AS_FLOW_DEFAULT)
@@ -221,7 +236,7 @@ def build_as(case, surfaces=None, setup=True, mode="auto", npts=None, complex_=F
         ivc.add_output("point_masses", val=np.array(case.get("point_masses", s0.get("_point_masses", [[1000.0]])), float).reshape(-1), units="kg")
         ivc.add_output("point_mass_locations", val=np.array(case.get("point_mass_locations"), float), units="m")
         ivc.add_output("engine_thrusts", val=np.array(case.get("engine_thrusts"), float).reshape(-1), units="N")
-    prob.model.add_subsystem("pv", ivc, promotes=["*"])
+    prob.model.add_subsystem("pv", ivc_real, promotes=["*"])
     for s in surfaces:
         prob.model.add_subsystem(s["name"], AerostructGeometry(surface=s))
     c = prob.model.connect
